@@ -12,17 +12,29 @@ import (
 type Expr interface{}
 
 type (
-	EIdent  struct{ Name string }         // x, $x, pkg (left of selector)
-	EInt    struct{ V int64 }
-	EStr    struct{ V string }
-	EBool   struct{ V bool }
-	ENil    struct{}
-	EUnary  struct{ Op string; X Expr }   // ! - *
-	EBinary struct{ Op string; X, Y Expr } // ==> <==> || && == != < <= > >= + - * / % in
-	ESel    struct{ X Expr; Name string }
-	EIndex  struct{ X, I Expr }
-	ECall   struct{ Fun Expr; Args []Expr }
-	EQuant  struct {
+	EIdent struct{ Name string } // x, $x, pkg (left of selector)
+	EInt   struct{ V int64 }
+	EStr   struct{ V string }
+	EBool  struct{ V bool }
+	ENil   struct{}
+	EUnary struct {
+		Op string
+		X  Expr
+	} // ! - *
+	EBinary struct {
+		Op   string
+		X, Y Expr
+	} // ==> <==> || && == != < <= > >= + - * / % in
+	ESel struct {
+		X    Expr
+		Name string
+	}
+	EIndex struct{ X, I Expr }
+	ECall  struct {
+		Fun  Expr
+		Args []Expr
+	}
+	EQuant struct {
 		Forall bool
 		Vars   []string
 		Sorts  []string
@@ -75,7 +87,7 @@ func lexSpec(src string) ([]tok, error) {
 			out = append(out, tok{"str", s})
 			i = j + 1
 		default:
-			for _, op := range []string{"<==>", "==>", "...", "::", "==", "!=", "<=", ">=", "&&", "||", "(", ")", "[", "]", ",", ".", "!", "<", ">", "+", "-", "*", "/", "%", ":", "="} {
+			for _, op := range []string{"<==>", "==>", "...", "::", "==", "!=", "<=", ">=", "&&", "||", "(", ")", "[", "]", ",", ".", "!", "<", ">", "+", "-", "*", "/", "%", ":", "=", "&"} {
 				if strings.HasPrefix(src[i:], op) {
 					out = append(out, tok{"op", op})
 					i += len(op)
@@ -296,6 +308,14 @@ func (ps *specParser) mul() (Expr, error) {
 }
 
 func (ps *specParser) unary() (Expr, error) {
+	if ps.isOp("&") {
+		ps.p++
+		x, err := ps.unary()
+		if err != nil {
+			return nil, err
+		}
+		return EUnary{"&", x}, nil
+	}
 	if ps.isOp("!") || ps.isOp("-") || ps.isOp("*") {
 		op := ps.next().s
 		x, err := ps.unary()
